@@ -20,12 +20,25 @@ self-rescheduling chain (d != p).  All on VirtualTimeScheduler, TestScheduler,
 HistoricalScheduler, and through CatchScheduler.  Oracle: an independent Python
 computation of the expected calls (k-th call at (k+1) periods, state threading, stop
 after raise / dispose) on the implementation's trace.
-NOT covered: NewThreadScheduler / EventLoopScheduler / TimeoutScheduler /
-mainloop schedulers (real threads and wall-clock time; no deterministic driver
-here) -- the claim is partial."""
+(d) NewThreadScheduler.schedule_periodic (its own loop on a dedicated thread):
+model Core/NewThreadPeriodic.v, theorems C35_nt_* (state threading, the flag is
+tested before every invocation -- also when nothing is waited for --, no invocation
+at a later instant than a dispose(), dispose during an invocation makes it the last,
+exact spacing max(period, duration), first call one period after scheduling).  Tie:
+harness/ntpdrv.py drives the REAL loop with a controlled clock / threading.Event /
+thread (baton between the loop thread and the main thread) over an exhaustive
+single-record scope and seeded scripts (periods incl. 0, durations shorter / equal /
+longer than the period, dispose before the first run / during a wait / before and
+after the loop's test / during a run from inside and from another thread / twice,
+raising invocations); the event trace is compared with the model inside Coq.  Oracle:
+ntpdrv.oracle, the statement on the same logs.
+NOT covered: EventLoopScheduler / TimeoutScheduler / ThreadPoolScheduler / mainloop
+schedulers; for NewThreadScheduler real thread scheduling delays and the wake-up
+latency of Event.wait (the controlled world has none) -- the claim is partial."""
 import json
 
 import lib
+import ntpdrv
 import vt
 
 IMPORTS = "Base.Prelude Core.VTime Core.CatchSched Core.Periodic"
@@ -295,6 +308,65 @@ def run(chk):
                         nontrivial.add(json.dumps([world, c0, "obs", d, p, t_rel, disp, sl]))
                     gal.append((f"({vt.KIND[world]}, {vt.gz(c0)}, 400%nat, {vt.g_history(h)})", vt.g_obs(obs)))
 
+    # ---- (d) NewThreadScheduler.schedule_periodic: the loop on its dedicated thread ----
+    nt_cases = ntpdrv.exhaustive_cases(tier)
+    nt_cases += [ntpdrv.random_case(rng, tier) for _ in range(1500 if tier == "quick" else 40000)]
+    nt_gal, nt_fail = [], {}
+    nth = {"cases": 0, "family": {}, "period": {}, "invocations": 0, "overrunning_invocations": 0,
+           "invocations_as_long_as_period": 0, "dispose_calls": {}, "outcome": {}, "raised": 0,
+           "no_wait_iterations": 0, "max_invocations": 0}
+    with ntpdrv.rebound():
+        for case in nt_cases:
+            r = ntpdrv.run_case(case)
+            chk.cov["evaluations"] += 1
+            nth["cases"] += 1
+            fam = case.get("family", "?")
+            nth["family"][fam] = nth["family"].get(fam, 0) + 1
+            pk = str(case["period"]) if case["period"] in ntpdrv.PERIODS + [-1000] else "other"
+            nth["period"][pk] = nth["period"].get(pk, 0) + 1
+            nth["outcome"][str(r.outcome)] = nth["outcome"].get(str(r.outcome), 0) + 1
+            starts = [e for e in r.log if e[0] == "inv"]
+            ends = [e for e in r.log if e[0] in ("end", "raise")]
+            nth["invocations"] += len(starts)
+            nth["max_invocations"] = max(nth["max_invocations"], len(starts))
+            nth["raised"] += sum(1 for e in r.log if e[0] == "raise")
+            for a, b in zip(starts, ends):
+                nth["overrunning_invocations"] += (b[1] - a[1]) > case["period"]
+                nth["invocations_as_long_as_period"] += (b[1] - a[1]) == case["period"]
+            for e in r.log:
+                if e[0] == "disp":
+                    key = f"{e[2]}/{e[3]}"
+                    nth["dispose_calls"][key] = nth["dispose_calls"].get(key, 0) + 1
+            nth["no_wait_iterations"] += max(0, sum(1 for e in r.log if e[0] == "test")
+                                             - sum(1 for e in r.log if e[0] == "wait"))
+            if len(starts) >= 2:
+                nontrivial.add(json.dumps(["newthread", {k: v for k, v in case.items() if k != "family"}]))
+            for sig, msg in ntpdrv.oracle(case, r):
+                sz = ntpdrv.size_of(case)
+                if sig not in nt_fail or sz < nt_fail[sig][0]:
+                    nt_fail[sig] = (sz, {"driver": "newthread", "case": case, "outcome": r.outcome,
+                                         "log (kind, clock_us, data, who)": [list(e) for e in r.log],
+                                         "what_failed": msg,
+                                         "expected_text": "called with the state returned by the previous call, once "
+                                         "per period, no call once the returned disposable is disposed (a dispose() "
+                                         "that returned before the previous call ended, before the thread ran, or at "
+                                         "an earlier clock instant), none after a raise"})
+            nt_gal.append(ntpdrv.g_case(case, r))
+    for sig, (sz, rep) in nt_fail.items():
+        chk.violation(sig, rep, size=sz)
+    hist["newthread"] = nth
+    nt_bad, nt_logs = lib.correspondence("C35", "ntcorr", ntpdrv.IMPORTS, ntpdrv.CASE_TY, ntpdrv.MODEL_FN,
+                                         ntpdrv.EQB, nt_gal)
+    if nt_bad:
+        firsts = [i for i in nt_bad if i >= 0][:3]
+        detail = {"n_disagreements": len(nt_bad), "logs": [l[-1500:] for l in nt_logs[:1]],
+                  "first_cases": [{"case": nt_cases[i], "model_input": nt_gal[i][0][:1500],
+                                   "implementation": nt_gal[i][1][:1500]} for i in firsts]}
+        if firsts:
+            detail["model_says"] = lib.coq_show("C35", ntpdrv.IMPORTS,
+                                                f"{ntpdrv.MODEL_FN} {nt_gal[firsts[0]][0]}")[:3000]
+        chk.tie_broken("correspondence: Core/NewThreadPeriodic.v vs real NewThreadScheduler.schedule_periodic", detail)
+
     failures.sort(key=lambda f: f[0])
     seen = set()
     for size, sig, rep in failures:
@@ -305,8 +377,8 @@ def run(chk):
                                                     "by the previous call; no call after dispose or raise"), size=size)
     bad, logs = lib.correspondence("C35", "corr", IMPORTS, CASE_TY, "model", "(list_eqb oev_eqb)", gal,
                                    prelude=PRELUDE)
-    chk.cov["traces_validated_against_impl"] = len(gal)
-    chk.cov["disagreements_checked"] = len(gal)
+    chk.cov["traces_validated_against_impl"] = len(gal) + len(nt_gal)
+    chk.cov["disagreements_checked"] = len(gal) + len(nt_gal)
     if bad:
         firsts = [i for i in bad if i >= 0][:3]
         detail = {"n_disagreements": len(bad), "logs": [l[-1500:] for l in logs[:1]],
@@ -320,18 +392,33 @@ def run(chk):
                        "generated target, driven by one advance_to, by several advance_by steps, with a canceller at a "
                        "generated dispose time, or through CatchScheduler; (b) random histories mixing periodic "
                        "subscriptions with ordinary actions (cancel/stop/sleep/raise); (c) reactivex.interval and "
-                       "reactivex.timer(d, p) subscribed on the scheduler.  non-trivial = distinct cases with at "
+                       "reactivex.timer(d, p) subscribed on the scheduler; (d) NewThreadScheduler.schedule_periodic under "
+                       "the controlled clock/Event/thread: EVERY single iteration record of a small domain (dispose "
+                       "offset into the wait x before test x after test x duration 0/half/equal/longer than the period "
+                       "x dispose during the run from inside/outside x raise; periods 0 and 1000 us) as first iteration "
+                       "and after a short / an overrunning predecessor (thorough: all pairs of records of a reduced "
+                       "domain), plus seeded scripts of 1..8 (thorough ..19) iterations over periods {0, 1 us, 1 ms, "
+                       "0.25 s, 1 s, 3 s, random, -1 ms}.  non-trivial = distinct cases with at "
                        "least two calls/emissions")
     chk.cov["input_distribution"] = hist
-    chk.cov["not_covered"] = ("NewThreadScheduler, EventLoopScheduler, TimeoutScheduler, ThreadPoolScheduler and the "
-                              "mainloop/eventloop schedulers: periodic scheduling on real threads / wall-clock time is "
-                              "not driven deterministically here (partial)")
-    chk.add_samples([{"case": g[0][:300]} for g in gal[::max(1, len(gal) // 6)]])
+    chk.cov["not_covered"] = ("EventLoopScheduler, TimeoutScheduler, ThreadPoolScheduler and the "
+                              "mainloop/eventloop schedulers: periodic scheduling there is not driven here; "
+                              "NewThreadScheduler: real thread-scheduling delays and the wake-up latency of Event.wait "
+                              "(the controlled world has zero latency) (partial)")
+    chk.add_samples([{"case": g[0][:300]} for g in gal[::max(1, len(gal) // 4)]], limit=4)
+    chk.add_samples([{"newthread_case": g[0][:300], "trace": g[1][:300]}
+                     for g in nt_gal[::max(1, len(nt_gal) // 2)]], limit=6)
     return chk.finish(
         trusted_extra=["Core/VTime.v (periodic part) hand-written model, validated by this run's correspondence",
                        "interval/timer: the observable layer (Observable.subscribe, AutoDetachObserver) is executed, "
-                       "modelled only through the scheduler calls it makes"],
-        assumptions=["virtual-time schedulers only; the only way an action takes virtual time is scheduler.sleep",
+                       "modelled only through the scheduler calls it makes",
+                       "Core/NewThreadPeriodic.v hand-written model of NewThreadScheduler.schedule_periodic's loop, "
+                       "validated by this run's correspondence; harness/ntpdrv.py (controlled clock / Event / thread: "
+                       "the loop thread and the main thread alternate through a baton)"],
+        assumptions=["virtual-time schedulers: the only way an action takes virtual time is scheduler.sleep",
+                     "new-thread loop: zero latency -- the clock moves only inside disposed.wait (by exactly the "
+                     "timeout, or to the instant of the waking dispose()) and inside the action; dispose() is atomic "
+                     "w.r.t. the loop's steps (it only sets the Event)",
                      "period > 0 for the closed form (period 0 or negative keeps advance_to busy forever by design)"])
 
 
@@ -394,6 +481,18 @@ def run_observable(world, c0, d, p, t_rel, disp, sleeps=None):
 
 def replay(chk, path):
     d = json.load(open(path))
+    if d.get("driver") == "newthread":
+        with ntpdrv.rebound():
+            r = ntpdrv.run_case(d["case"])
+        print("case", json.dumps(d["case"]))
+        print("log (kind, clock_us, data, who):")
+        for e in r.log:
+            print("   ", e)
+        print("outcome", r.outcome, r.crash or "")
+        bad = ntpdrv.oracle(d["case"], r)
+        for sig, msg in bad:
+            print("FAILS", sig, msg)
+        return 1 if bad else 0
     if "history" not in d:
         print(json.dumps(d, indent=1))
         return 1
